@@ -92,6 +92,7 @@ class AoefSim:
         self.max_kinds = 0
         self.sim_span = [self.now, self.now]
         self.states = set()
+        self.skew = {}  # node -> seconds its clock is off
         self.known = []
         self.known_hits = Counter()
         os.makedirs(run_dir, exist_ok=True)
@@ -121,12 +122,13 @@ class AoefSim:
             if handle["node"] == n:
                 handle["alive"] = False
 
-    def env(self, fault=None):
+    def env(self, fault=None, node=None):
         self.now += dt.timedelta(seconds=1)
         self.sim_span[0] = min(self.sim_span[0], self.now)
         self.sim_span[1] = max(self.sim_span[1], self.now)
+        local = self.now + dt.timedelta(seconds=self.skew.get(node, 0))
         return {
-            "clock": self.now.isoformat(),
+            "clock": local.isoformat(),
             "uuid_stream": (self.seed_tag + self.i) & 0xFFFF,
             "fault": fault,
             "root": self.run_dir,
@@ -240,6 +242,11 @@ class AoefSim:
             self.record(op, "ok")
             self.trace.append(("restart",))
             self.probes.hit("restart")
+        elif kind == "skew":
+            self.skew[op["node"]] = op["seconds"]
+            self.record(op, "ok")
+            self.trace.append(("skew", op["seconds"] < 0))
+            self.probes.hit("clock-skew-between-nodes")
         elif kind == "jump":
             self.now += dt.timedelta(seconds=op["seconds"])
             self.sim_span[0] = min(self.sim_span[0], self.now)
@@ -363,7 +370,7 @@ class AoefSim:
                 audio_dir=audio,
                 audio_as=op.get("audio_as", "str"),
                 api=op.get("api", "io"),
-                _env=self.env(fault),
+                _env=self.env(fault, n),
             )
         except NodeCrashed:
             if not fault or fault["kind"] not in CRASH_KINDS:
@@ -571,7 +578,7 @@ class AoefSim:
                 audio_as=op.get("audio_as", "str"),
                 type_arg=type_arg,
                 api=op.get("api", "io"),
-                _env=self.env(fault),
+                _env=self.env(fault, n),
             )
         except NodeCrashed:
             raise HarnessError("node died during load") from None
@@ -1212,6 +1219,10 @@ def gen_ops(rng, cfg, seed_tag) -> list:
         if any(keep):
             names = [nm for nm, k in zip(names, keep) if k]
             weights = [w for w, k in zip(weights, keep) if k]
+    if cfg["n_nodes"] > 1 and rng.random() < 0.3:
+        for n in range(cfg["n_nodes"]):
+            gen.emit({"op": "skew", "node": n, "seconds": rng.choice(
+                [0, 0, 3600, -86400, 400 * 86400, -0.5, 59])})
     while len(gen.ops) < cfg["max_ops"]:
         if rng.random() < 0.15:
             gen.jump()
